@@ -1,3 +1,5 @@
 pub mod c01;
 pub mod common;
 pub mod c02;
+pub mod c16;
+pub mod c14;
